@@ -363,6 +363,9 @@ pub fn c05(args: &Args) -> Report {
         // few authors / kinds / tag values: selective but non-trivial filters; clustered times with many ties
         p.kinds = vec![1, 1, 7, 0, 10002, 30023, 1059, 5];
         p.times = vec![100, 100, 101, 102, 102, 102, 255, 256, 65535, 65536, (1 << 32) - 1, 1 << 32];
+        if i % 8 == 2 {
+            p.times = vec![0, 0, 1, 1, 2, 100, u64::MAX - 1, u64::MAX];
+        }
         p.content_lens = vec![0, 5];
         if i % 2 == 1 {
             // dense variant: few letters and values, many events per (letter, value) and per author
@@ -484,7 +487,8 @@ pub fn c09(args: &Args) -> Report {
         if i % 2 == 0 {
             p.kinds = vec![0, 3, 10000, 30000, 30000, 30001, 1];
         }
-        p.times = if i % 5 == 3 { vec![100, 101, 4_102_444_800, 4_102_444_801, u64::MAX - 1, u64::MAX] } else { vec![100, 101, 102, 103] };
+        // both ends of the time axis too: holders and rivals created at 0 / 1, and at the largest values
+        p.times = if i % 5 == 3 { vec![100, 101, 4_102_444_800, 4_102_444_801, u64::MAX - 1, u64::MAX] } else if i % 5 == 1 { vec![0, 0, 1, 1, 2, 100] } else { vec![100, 101, 102, 103] };
         p.dvals = vec!["".into(), "x".into(), "x:".into(), "x:y".into(), "x\u{0}".into(), "x\u{0}\u{0}".into(), "y".into(), long_d(181, "a"), long_d(182, "a"), long_d(183, "ab"), long_d(183, "ac"), long_d(400, "z1"), long_d(400, "z2")];
         p.content_lens = vec![0, 3];
         p.max_extra_tags = 1;
@@ -553,7 +557,7 @@ pub fn c10(args: &Args) -> Report {
         let mut p = Pools::basic();
         p.authors = vec![author(0), author_twin(0), author(1)];
         p.kinds = vec![1, 0, 10002, 30023, 30023, 30024, 7];
-        p.times = if i % 5 == 3 { vec![100, 101, 4_102_444_800, u64::MAX - 1, u64::MAX] } else { vec![100, 101, 102, 103, 200] };
+        p.times = if i % 5 == 3 { vec![100, 101, 4_102_444_800, u64::MAX - 1, u64::MAX] } else if i % 5 == 1 { vec![0, 0, 1, 1, 2, 100] } else { vec![100, 101, 102, 103, 200] };
         p.dvals = vec!["".into(), "x".into(), "y".into(), "x:y".into(), ":".into()];
         p.content_lens = vec![0, 4];
         p.max_extra_tags = 1;
@@ -605,7 +609,7 @@ pub fn c11(args: &Args) -> Report {
         let mut p = Pools::basic();
         p.authors = vec![author(0), author_twin(0), author(1)];
         p.kinds = vec![1, 0, 3, 10002, 30023, 30023, 30024];
-        p.times = if i % 5 == 4 { vec![60, 80, (1 << 32) + 100, (1 << 32) + 120, (1 << 40) + 1] } else { vec![60, 80, 100, 120, 140] };
+        p.times = if i % 5 == 4 { vec![60, 80, (1 << 32) + 100, (1 << 32) + 120, (1 << 40) + 1] } else if i % 5 == 1 { vec![0, 0, 1, 1, 2, 3] } else { vec![60, 80, 100, 120, 140] };
         p.dvals = vec!["".into(), "x".into(), "x:y".into(), "x:y:z".into(), ":".into(), "https://example.com/a/1".into(), "https".into(), "x\u{0}".into(), long_d(181, "a"), long_d(182, "a"), long_d(183, "ab"), long_d(400, "z")];
         p.content_lens = vec![0, 4];
         p.max_extra_tags = 1;
@@ -692,7 +696,7 @@ pub fn c12(args: &Args) -> Report {
         let mut p = Pools::basic();
         p.authors = vec![author(0), author_twin(0), author(1)];
         p.kinds = vec![1, 0, 10002, 30023, 30023, 7, 62];
-        p.times = if i % 5 == 3 { vec![100, 101, 4_102_444_800, u64::MAX - 1, u64::MAX] } else { vec![100, 101, 102, 103] };
+        p.times = if i % 5 == 3 { vec![100, 101, 4_102_444_800, u64::MAX - 1, u64::MAX] } else if i % 5 == 1 { vec![0, 0, 1, 1, 2, 100] } else { vec![100, 101, 102, 103] };
         // a d value too long for an address marker key: the request fails inside LMDB after earlier tags took effect
         p.dvals = vec!["".into(), "x".into(), "y".into(), long_d(480, "big")];
         p.content_lens = vec![0, 4];
@@ -896,7 +900,7 @@ pub fn c16(args: &Args) -> Report {
         let mut rng = hist_rng(args.seed(), 0xC16, i);
         let mut p = Pools::basic();
         p.kinds = vec![1, 7, 0, 10002, 30023, 30024, 20001, 1059];
-        p.times = if i % 3 == 2 { vec![100, 101, (1 << 32) + 7, (1 << 33) + 1, u64::MAX - 1] } else { vec![100, 101, 102, 103, 200] };
+        p.times = if i % 3 == 2 { vec![100, 101, (1 << 32) + 7, (1 << 33) + 1, u64::MAX - 1] } else if i % 6 == 1 { vec![0, 0, 1, 1, 2, 100] } else { vec![100, 101, 102, 103, 200] };
         p.dvals = vec!["".into(), "x".into(), "x\u{0}".into(), long_d(181, "a"), long_d(182, "b"), long_d(183, "cd"), long_d(200, "e"), long_d(400, "f"), "\u{1}\u{2}\u{ff}".into(), "x:y".into(), ":".into()];
         p.content_lens = vec![0, 5, 300];
         let mut mix = Mix::base();
@@ -1165,7 +1169,7 @@ pub fn c18(args: &Args) -> Report {
         let mut rng = hist_rng(args.seed(), 0xC18, i);
         let mut p = Pools::basic();
         p.kinds = vec![1, 7, 0, 10002, 30023, 1059, 1059, 1058, 1060, 20000, 25000, 29999, 5];
-        p.times = if i % 4 == 3 { vec![100, 101, 4_102_444_800, u64::MAX] } else { vec![100, 101, 102, 200] };
+        p.times = if i % 4 == 3 { vec![100, 101, 4_102_444_800, u64::MAX] } else if i % 4 == 1 { vec![0, 0, 1, 1, 2, 100] } else { vec![100, 101, 102, 200] };
         p.content_lens = vec![0, 5];
         p.max_extra_tags = 3;
         let mut mix = Mix::base();
